@@ -177,41 +177,29 @@ def check_case(case, res):
                       f'{type(err).__name__}: {err}')
         res.case('valid-rejected')
         return
-    # ---- valid and accepted: the reported regions tile the die
-    xs = sorted({die_ex[0], die_ex[2]} | {e[0] for e in exs} | {e[2] for e in exs})
-    ys = sorted({die_ex[1], die_ex[3]} | {e[1] for e in exs} | {e[3] for e in exs})
+    # ---- valid and accepted: the reported regions tile the die (checked on the reported coordinates themselves, with
+    #      tolerance: any exact tiling is admissible, the cut lines need not be those of the description)
     reported = [('ground', r) for r in d.ground_regions] + [('spec', r) for r in d.specialized_regions] + \
                [('block', r) for r in d.blockages] + [('fixed', r) for r in d.fixed_regions]
-    snapped = []
+    boxes = []
+    W_, H_ = float(die_ex[2]), float(die_ex[3])
     for cls, r in reported:
-        c, s = r.center, r.shape
-        q = (snap(c.x - s.w / 2, xs, tol), snap(c.y - s.h / 2, ys, tol), snap(c.x + s.w / 2, xs, tol),
-             snap(c.y + s.h / 2, ys, tol))
-        if None in q or not (q[0] < q[2] and q[1] < q[3]):
-            res.violation('off-grid', case, attrs, 'region corners on the boundaries of the description',
-                          f'{cls} {r!r}')
-            res.case('valid-accepted')
-            return
-        # centre/shape consistent with the snapped corners
-        ecx, ecy, ew, eh = center_shape(q)
-        if max(abs(c.x - float(ecx)), abs(c.y - float(ecy)), abs(s.w - float(ew)), abs(s.h - float(eh))) > tol:
-            res.violation('off-grid', case, attrs, [str(v) for v in q], f'{cls} {r!r}')
-        snapped.append(q)
+        c, s_ = r.center, r.shape
+        q = (c.x - s_.w / 2, c.y - s_.h / 2, c.x + s_.w / 2, c.y + s_.h / 2)
+        if not (s_.w > 0 and s_.h > 0):
+            res.violation('tiling-inside', case, attrs, 'a proper rectangle', f'{cls} {r!r}')
+        if q[0] < -tol or q[1] < -tol or q[2] > W_ + tol or q[3] > H_ + tol:
+            res.violation('tiling-inside', case, attrs, 'inside the die', f'{cls} {r!r}')
+        boxes.append(q)
         if cls == 'ground' and r.region != '_':
             res.violation('ground-tag', case, attrs, '_', r.region)
-    for q in snapped:
-        if not xinside(q, die_ex):
-            res.violation('tiling-inside', case, attrs, 'inside the die', [str(v) for v in q])
-    for a, b in itertools.combinations(snapped, 2):
-        if xinter(a, b) is not None:
-            res.violation('tiling-overlap', case, attrs, 'pairwise disjoint', [[str(v) for v in a], [str(v) for v in b]])
+    for a, b in itertools.combinations(boxes, 2):
+        if min(a[2], b[2]) - max(a[0], b[0]) > tol and min(a[3], b[3]) - max(a[1], b[1]) > tol:
+            res.violation('tiling-overlap', case, attrs, 'pairwise disjoint', [list(a), list(b)])
             break
-    total = sum(xarea(q) for q in snapped)
-    if total != xarea(die_ex):
-        res.violation('tiling-area', case, attrs, str(xarea(die_ex)), str(total))
-    fsum = sum(r.area for _, r in reported)
-    if abs(fsum - float(xarea(die_ex))) > 1e-9 * scale * scale:
-        res.violation('tiling-area', case, attrs, float(xarea(die_ex)), fsum)
+    fsum = sum((q[2] - q[0]) * (q[3] - q[1]) for q in boxes)
+    if abs(fsum - W_ * H_) > 1e-9 * scale * scale:
+        res.violation('tiling-area', case, attrs, W_ * H_, fsum)
     # ---- every input region reported once, unchanged, with its tag
     want = sorted((tuple(v[:4]), v[4]) for v in regions)
     got = sorted(((r.center.x, r.center.y, r.shape.w, r.shape.h), r.region)
